@@ -28,8 +28,12 @@ def b64(obj):
 
 def gen_request(rng, k):
     """-> (line bytes, kind, marker).  marker identifies the expected answer."""
-    c = rng.randint(1, 22)
+    c = rng.randint(1, 23)
     src = f"db.Setting = {1000 + k}\n"
+    if c == 23:
+        # a constexpr function that reads standard input: the requests still waiting there are not its to take
+        s3 = "@constexpr\ndef g():\n    import sys\n    sys.stdin.buffer.read()\n    return 3\n" + f"db.Setting = g() + {1000 + k}\n"
+        return b64({"action": "compile", "code": {"": s3}}).encode(), "any", None
     if c <= 5:
         return b64({"action": "compile", "code": {"": src}}).encode(), "ok", str(1000 + k)
     if c == 6:
@@ -128,8 +132,19 @@ def main(tier, seed):
     nscripts = 10 if tier == "quick" else 120
     kinds = {}
     total_reqs = 0
-    for i in range(nscripts):
-        data, reqs, tail = gen_script(rng, rng.randint(5, 25 if tier == "quick" else 60))
+    def long_script():
+        # more input than the daemon buffers at once (hundreds of requests written in one go), the first
+        # request running a constexpr function that reads standard input to its end
+        s3 = "@constexpr\ndef g():\n    import sys\n    sys.stdin.buffer.read()\n    return 3\ndb.Setting = g() + 1\n"
+        reqs = [("any", None, b64({"action": "compile", "code": {"": s3}}).encode())]
+        for k in range(300):
+            reqs.append(("ok", str(5000 + k), b64({"action": "compile", "code": {"": f"db.Setting = {5000 + k}\n" + "# padding padding padding\n" * 6}}).encode()))
+        return b"\n".join(l for _, _, l in reqs) + b"\nEXIT\n", reqs, "EXIT"
+    for i in range(nscripts + 1):
+        if i == nscripts:
+            data, reqs, tail = long_script()
+        else:
+            data, reqs, tail = gen_script(rng, rng.randint(5, 25 if tier == "quick" else 60))
         envname, extra = ENVS[i % len(ENVS)]
         has_bad_bytes = any(l.startswith(b"\xff") for _, _, l in reqs)
         out, err, rc, hung = run_daemon(data, extra)
@@ -167,7 +182,7 @@ def main(tier, seed):
             run.violation(f"daemon exit status {rc}", dict(rec_base, kind="exit"))
     run.cov["distinct_nontrivial"] = total_reqs
     run.cov["traces_validated_against_impl"] = nscripts
-    run.cov["rule"] = "scripted standard input for a fresh daemon process: 5-25 (thorough: up to 60) lines drawn from 22 request kinds (valid compiles with markers, invalid base64 / JSON / shapes / actions / options, failing and printing sources, printing constexpr, raw undecodable bytes, blank lines), ended by EXIT, EOF or EXIT followed by more input; five interpreter environments; non-trivial = one request line"
+    run.cov["rule"] = "scripted standard input for a fresh daemon process: 5-25 (thorough: up to 60) lines drawn from 23 request kinds (valid compiles with markers, invalid base64 / JSON / shapes / actions / options, failing and printing sources, printing constexpr, a constexpr function that reads standard input, raw undecodable bytes, blank lines), ended by EXIT, EOF or EXIT followed by more input; one script of 301 requests written at once whose first request runs a constexpr function that reads standard input; five interpreter environments; non-trivial = one request line"
     run.cov["input_distribution"] = kinds
     run.sample({"requests": 12, "kinds": list(kinds)[:8]})
     return run.finish(assumptions_text=ass, trusted_extra=TRUST)
